@@ -48,6 +48,9 @@ const (
 )
 
 var c11Neutral = []Mutant{
+	{Name: "neutral-allows-if-chain", File: "guidedremediation/upgrade/upgrade.go",
+		Old: "	switch level {\n	case Major:\n		return true\n	case Minor:\n		return diff != semver.DiffMajor\n	case Patch:\n		return (diff != semver.DiffMajor) && (diff != semver.DiffMinor)\n	case None:\n		return false\n	default: // Invalid level\n		return false\n	}\n",
+		New: "	if level == Major {\n		return true\n	}\n	if level == Minor {\n		return diff != semver.DiffMajor\n	}\n	if level == Patch {\n		if diff == semver.DiffMajor || diff == semver.DiffMinor {\n			return false\n		}\n		return true\n	}\n	return false\n"},
 	{Name: "neutral-override-level-bound-once", File: overrideGo,
 		Old:  "			if opts.UpgradeConfig.Get(vk.Name) == upgrade.None {\n				continue\n			}\n",
 		New:  "			level := opts.UpgradeConfig.Get(vk.Name)\n			if level == upgrade.None {\n				continue\n			}\n",
@@ -161,6 +164,14 @@ var c13Neutral = []Mutant{
 }
 
 var c19Neutral = []Mutant{
+	{Name: "neutral-validate-tests-rewritten", File: "plugin/plugin.go",
+		Old:  "		if capabs.OS != OSLinux && capabs.OS != OSMac {",
+		New:  "		if OSMac != capabs.OS && OSLinux != capabs.OS {",
+		Old2: "	if p.Requirements().RunningSystem && !capabs.RunningSystem {\n		errs = append(errs, \"scanner isn't scanning the host it's run from directly\")\n	}\n",
+		New2: "	if p.Requirements().RunningSystem {\n		if !capabs.RunningSystem {\n			errs = append(errs, \"scanner isn't scanning the host it's run from directly\")\n		}\n	}\n"},
+	{Name: "neutral-validate-early-accept", File: "plugin/plugin.go",
+		Old: "	if len(errs) == 0 {\n		return nil\n	}\n	return fmt.Errorf(",
+		New: "	if len(errs) > 0 {\n		return fmt.Errorf(\"plugin %s can't be enabled: %s\", p.Name(), strings.Join(errs, \", \"))\n	}\n	return nil\n}\n\nfunc unusedValidateTail(p Plugin, errs []string) error {\n	return fmt.Errorf("},
 	{Name: "neutral-filter-continue-form", File: "extractor/standalone/list/list.go",
 		Old: "		if err := plugin.ValidateRequirements(ex, capabs); err == nil {\n			result = append(result, ex)\n		}\n",
 		New: "		if err := plugin.ValidateRequirements(ex, capabs); err != nil {\n			continue\n		}\n		result = append(result, ex)\n"},
